@@ -353,18 +353,31 @@ package dnssec
 //@ func signatureBinding
 //@   abstract
 //@   nosafety all pre
-//@   assert at return#6: result == nil && k != nil && sig != nil
-//@   assert at return#6: lastret("github.com/miekg/dns.IsRRset")
-//@   assert at return#6: calls("middleware/resolver/dnssec.KeyTag") == 1
-//@   assert at return#6: sig.Algorithm == k.Algorithm && sig.Hdr.Class == k.Hdr.Class
-//@   assert at return#6: eqFoldA(sig.SignerName, k.Hdr.Name) && eqFoldA(hdrOf(rrset[0]).Name, sig.Hdr.Name)
-//@   assert at return#6: hdrOf(rrset[0]).Class == sig.Hdr.Class && hdrOf(rrset[0]).Rrtype == sig.TypeCovered && countLabel(hdrOf(rrset[0]).Name) >= int(sig.Labels) && inZone(canon(hdrOf(rrset[0]).Name), canon(sig.SignerName))
+//@   assert at return#7: result == nil && k != nil && sig != nil
+//@   assert at return#7: lastret("github.com/miekg/dns.IsRRset")
+//@   assert at return#7: calls("middleware/resolver/dnssec.KeyTag") == 1
+//@   assert at return#7: sig.Algorithm == k.Algorithm && sig.Hdr.Class == k.Hdr.Class
+//@   assert at return#7: eqFoldA(sig.SignerName, k.Hdr.Name) && eqFoldA(hdrOf(rrset[0]).Name, sig.Hdr.Name)
+//@   assert at return#7: hdrOf(rrset[0]).Class == sig.Hdr.Class && hdrOf(rrset[0]).Rrtype == sig.TypeCovered && countLabel(hdrOf(rrset[0]).Name) >= int(sig.Labels) && inZone(canon(hdrOf(rrset[0]).Name), canon(sig.SignerName))
 //@   assert at call middleware/resolver/dnssec.KeyTag#1: arg0 == k && k.Protocol == 3 && k.Flags & 256 != 0 && lastret("github.com/miekg/dns.IsRRset")
 //@   assert at return#1: result != nil
 //@   assert at return#2: result != nil
 //@   assert at return#3: result != nil
 //@   assert at return#4: result != nil
 //@   assert at return#5: result != nil
+//@   assert at return#6: result != nil
+//@   # "only when those records prove it for that exact name": an NSEC or NSEC3 RRset is bound to a signature only under the
+//@   # owner name that was signed - never under a name a wildcard was expanded to (Labels smaller than the owner's count)
+//@   assert at return#7: (hdrOf(rrset[0]).Rrtype == dns.TypeNSEC || hdrOf(rrset[0]).Rrtype == dns.TypeNSEC3) ==> !lastret("middleware/resolver/dnssec.expandedFromWildcard")
+//@   assert at call middleware/resolver/dnssec.expandedFromWildcard#1: arg0 == hdrOf(rrset[0]).Name && arg1 == sig.Labels
+//@
+//@ # an owner with more labels (root and a leading "*" not counted) than the RRSIG's Labels field was not the signed name
+//@ func expandedFromWildcard
+//@   abstract
+//@   nosafety all pre
+//@   assert at call github.com/miekg/dns.CountLabel#1: arg0 == name
+//@   assert at call strings.HasPrefix#1: arg0 == name && arg1 == "*."
+//@   assert at return: result == (lastret("github.com/miekg/dns.CountLabel") - ite(lastret("strings.HasPrefix"), 1, 0) > int(labels))
 //@
 //@ # signature verification (abstracting tier): no cryptographic primitive runs before the binding preflight accepted
 //@ # the (key, signature, RRset) triple; the signed data is built from THIS signature and RRset; the primitive is chosen
